@@ -15,6 +15,7 @@ package core
 // before following a successor.
 
 import (
+	"sort"
 	"go/constant"
 	"go/token"
 	"go/types"
@@ -542,4 +543,32 @@ func NilnessAt(v ssa.Value, at ssa.Instruction) (isNil, known bool) {
 func definedIn(v ssa.Value, b *ssa.BasicBlock) bool {
 	in, ok := v.(ssa.Instruction)
 	return ok && in.Block() == b
+}
+
+// SentinelNames lists the never-nil package-level variables of package raft
+// (named as canonical forms name globals).
+func (p *Program) SentinelNames() []string {
+	p.sentinel(nil)
+	var out []string
+	for g, ok := range p.sentinels {
+		if ok && g != nil && g.Pkg != nil && g.Pkg.Pkg.Path() == RaftPkg {
+			out = append(out, g.Name())
+		}
+	}
+	// a variable whose type has no nil (a string-typed error such as
+	// plainError) is not nil either, in particular once boxed
+	if sp := p.SSA[RaftPkg]; sp != nil {
+		for _, m := range sp.Members {
+			g, isG := m.(*ssa.Global)
+			if !isG {
+				continue
+			}
+			switch g.Type().(*types.Pointer).Elem().Underlying().(type) {
+			case *types.Basic, *types.Struct, *types.Array:
+				out = append(out, g.Name())
+			}
+		}
+	}
+	sort.Strings(out)
+	return out
 }
